@@ -1,6 +1,7 @@
 package main
 
 import (
+	"fmt"
 	"go/ast"
 	"go/types"
 	"sort"
@@ -185,4 +186,75 @@ func (r *Run) compilePhaseEffects() {
 	}
 	sort.Strings(apps)
 	r.frameObl("interp/effects:bltn-applied-only-at-run-time", "values of type bltn are applied only by runCfg and by run-time closures", len(apps) == 0, strings.Join(apps, "; "))
+}
+
+// phaseOrder: in Execute and importSrc the calls root -> global variables -> init functions appear
+// in that order (ground obligation on the statement order of the real bodies).
+func (r *Run) phaseOrder() {
+	p := r.L.ByName["interp"]
+	for _, key := range []string{"Interpreter.Execute", "Interpreter.importSrc"} {
+		fd := r.L.FindFunc(p, key)
+		if fd == nil {
+			r.engineError("%s does not exist in the current tree", key)
+			continue
+		}
+		// positions of: first run of a root, genGlobalVars, run of its result, loop over init nodes
+		pos := map[string]int{}
+		idx := 0
+		ast.Inspect(fd.Body, func(n ast.Node) bool {
+			idx++
+			switch n := n.(type) {
+			case *ast.CallExpr:
+				name := calleeNameOf(p, n)
+				switch {
+				case name == "interp.genGlobalVars":
+					if _, ok := pos["vars-gen"]; !ok {
+						pos["vars-gen"] = idx
+					}
+				case name == "interp.Interpreter.run":
+					arg := types.ExprString(n.Args[0])
+					frame := types.ExprString(n.Args[1])
+					switch {
+					case frame == "interp.frame":
+						if _, ok := pos["inits-run"]; !ok {
+							pos["inits-run"] = idx
+						}
+					case pos["vars-gen"] > 0:
+						if _, ok := pos["vars-run"]; !ok {
+							pos["vars-run"] = idx
+						}
+					default:
+						_ = arg
+						if _, ok := pos["root-run"]; !ok {
+							pos["root-run"] = idx
+						}
+					}
+				}
+			}
+			return true
+		})
+		ok := pos["root-run"] > 0 && pos["root-run"] < pos["vars-gen"] && pos["vars-gen"] < pos["vars-run"] && pos["vars-run"] < pos["inits-run"]
+		r.frameObl("interp."+key+"/order:root-vars-inits", "package code, then global variables (in dependency order), then init functions/main run in that order", ok, fmt.Sprint(pos))
+		r.FuncsUC = append(r.FuncsUC, "interp."+key+" (phase order)")
+	}
+}
+
+// depsThroughFunctions: the Go spec's reference relation is transitive through the bodies of the
+// functions and methods an initialiser mentions. The obligation holds when the dependency walk
+// treats function symbols (it must visit the body of a referenced function).
+func (r *Run) depsThroughFunctions() {
+	p := r.L.ByName["interp"]
+	fd := r.L.FindFunc(p, "getVarDependencies")
+	if fd == nil {
+		r.engineError("getVarDependencies does not exist in the current tree")
+		return
+	}
+	handles := false
+	ast.Inspect(fd.Body, func(n ast.Node) bool {
+		if id, ok := n.(*ast.Ident); ok && (id.Name == "funcSym" || id.Name == "funcDecl") {
+			handles = true
+		}
+		return true
+	})
+	r.frameObl("interp.getVarDependencies/deps:through-function-bodies", "references to package-level variables made inside the bodies of functions the initialiser mentions are dependencies (Go spec, package initialization)", handles, "the walk returns at every identifier that is not a variable symbol: function symbols are never followed")
 }
